@@ -12,7 +12,7 @@ import shutil
 import subprocess
 import time
 
-VERIF = "/verif"
+VERIF = os.environ.get("VERIF_ROOT", "/verif")
 BUILD = os.path.join(VERIF, ".build")
 KANI_TRIPLE_DIR = "kani/x86_64-unknown-linux-gnu/debug/build"
 
